@@ -346,6 +346,7 @@ class Gen:
         self.cond = argument(Tensor(np.bool_, ()))
         self.leak = []
         self.snapshots = []
+        self.oneshot_problems = []
         # one initializer-backed weight that any scope may read (bodies of sibling control-flow nodes share it)
         self.shared_init = initializer(np.array([rng.randint(1, 5), rng.randint(1, 5)], F32)) if rng.random() < 0.6 else None
         pool = list(self.args)
@@ -365,11 +366,27 @@ class Gen:
 
     def expr(self, pool, depth):
         for _ in range(6):
+            state, n0 = self.rng.getstate(), getattr(self, "_oneshot_count", 0)
             try:
                 with warnings.catch_warnings():
                     warnings.simplefilter("ignore")
                     return self._expr(pool, depth)
             except Exception as e:  # ill-typed draw: re-draw  # noqa: BLE001
+                if getattr(self, "_oneshot_count", 0) > n0 and not getattr(self, "_force_list", False):
+                    # a body callback of this draw handed its results over as a one-shot iterable: the SAME draw with lists
+                    # (same random numbers) decides whether the draw is ill-typed or the form of the results was held against it
+                    self.rng.setstate(state)
+                    self._force_list = True
+                    try:
+                        with warnings.catch_warnings():
+                            warnings.simplefilter("ignore")
+                            v = self._expr(pool, depth)
+                        self.oneshot_problems.append(f"{type(e).__name__}: {str(e)[:200]}")
+                        return v
+                    except Exception:  # noqa: BLE001
+                        pass
+                    finally:
+                        self._force_list = False
                 self.count("redraw:" + type(e).__name__)
         return None
 
@@ -443,7 +460,7 @@ class Gen:
                         loc.append(v)
                 if rng.random() < self.leak_p:
                     self.leak.append(rng.choice(loc))
-                return [op.add(rng.choice(loc), self.args[0]) if rng.random() < 0.3 else op.identity(rng.choice(loc)) if rng.random() < 0.2 else self._same2(rng.choice(loc)) for _ in range(nres)]
+                return self._results([op.add(rng.choice(loc), self.args[0]) if rng.random() < 0.3 else op.identity(rng.choice(loc)) if rng.random() < 0.2 else self._same2(rng.choice(loc)) for _ in range(nres)])
 
             cond = self.cond if rng.random() < 0.7 else op.less(op.reduce_sum(a, keepdims=0), op.const(np.array(0, F32)))
             r = op.if_(cond, then_branch=br, else_branch=br)
@@ -464,7 +481,7 @@ class Gen:
                         loc.append(v)
                 if rng.random() < self.leak_p:
                     self.leak.append(rng.choice(loc))
-                return [c] + [self._same2(rng.choice(loc)) for _ in range(nstate)] + [self._same2(rng.choice(loc)) for _ in range(nscan)]
+                return self._results([c] + [self._same2(rng.choice(loc)) for _ in range(nstate)] + [self._same2(rng.choice(loc)) for _ in range(nscan)])
 
             r = op.loop(op.const(np.array(rng.randint(1, 3), np.int64)), v_initial=init, body=body)
             self.snap(r[0], [None, None] + init, first=2)
@@ -488,7 +505,7 @@ class Gen:
                         loc.append(v)
                 if rng.random() < self.leak_p:
                     self.leak.append(rng.choice(loc))
-                return [self._same2(rng.choice(loc)), self._same2(rng.choice(loc))]
+                return self._results([self._same2(rng.choice(loc)), self._same2(rng.choice(loc))])
 
             r = op.scan([st0, seq], body=sbody, num_scan_inputs=1)
             if rng.random() < 0.5:
@@ -496,6 +513,17 @@ class Gen:
             return op.reduce_sum(r[1], op.const(np.array([0], np.int64)), keepdims=0)
         self.count("Neg")
         return op.neg(a)
+
+    def _results(self, lst):
+        """What a body callback returns: mostly the list, sometimes the same results as a tuple or as a ONE-SHOT iterable (generator,
+        iterator) - how the results are handed over is no part of the program's meaning."""
+        r = self.rng.random()
+        if r < 0.85 or getattr(self, "_force_list", False):
+            return lst
+        if r >= 0.90:
+            self._oneshot_count = getattr(self, "_oneshot_count", 0) + 1
+        self.count("results-as-" + ("tuple" if r < 0.90 else "generator" if r < 0.95 else "iterator"))
+        return tuple(lst) if r < 0.90 else (x for x in lst) if r < 0.95 else iter(lst)
 
     def _same2(self, v):
         """Force shape [2] (add a zero vector) so carried / branch values keep one type."""
